@@ -6,8 +6,11 @@ import (
 	"fmt"
 	"math/rand"
 	"os"
+	"runtime"
 	"sort"
 	"strings"
+	"sync"
+	"sync/atomic"
 	"testing"
 	"testing/synctest"
 	"time"
@@ -847,5 +850,208 @@ func TestFoWalk(t *testing.T) {
 
 		line, _ := json.Marshal(out)
 		_, _ = traceOut.Write(append(line, '\n'))
+	}
+}
+
+// TestFoFree: FREE-RUNNING, really concurrent Gets (real scheduler, real clock, no steering): 4-12 goroutines x 3-8 Gets
+// on 2 keys of one Failover / FailoverOf over a real backend, builders that yield, fail or succeed at random, injected
+// backend faults, external ExpireAll / Delete in between.  The recorded event traces are judged by the monitors whose
+// guards are sound for really concurrent executions (C01, C02, C04, C18); nothing here depends on time passing.
+func TestFoFree(t *testing.T) {
+	outp := os.Getenv("VERIF_TRACE_OUT")
+	if outp == "" || os.Getenv("VERIF_FOFREE") == "" {
+		t.Skip("VERIF_FOFREE not set")
+	}
+
+	seed := envInt("VERIF_SEED", 1)
+	n := int(envInt("VERIF_N", 40))
+	res := Result{Extra: map[string]interface{}{}}
+
+	defer func() { mustNoErr(writeJSON(os.Getenv("VERIF_OUT"), res), "write result") }()
+
+	f, err := os.Create(outp)
+	mustNoErr(err, "trace out")
+
+	defer f.Close()
+
+	enc := json.NewEncoder(f)
+
+	for ri := 0; ri < n; ri++ {
+		rng := rand.New(rand.NewSource(seed*50021 + int64(ri))) //nolint:gosec
+		cfg := FoCfg{
+			Keys: []string{"k1", "k2"}, SyncUpdate: rng.Intn(2) == 0, SyncRead: rng.Intn(2) == 0, FailHard: rng.Intn(3) == 0,
+			MaxStale: []int{0, 2}[rng.Intn(2)], FailTTL: []int{1, -1}[rng.Intn(2)], UpdTTL: 1, BeTTL: 2, Generic: rng.Intn(3) == 0,
+			StatOn: true, LogOn: rng.Intn(3) == 0, Backend: []string{"ShardedMap", "SyncMap"}[rng.Intn(2)],
+			Skip: map[string]bool{}, HasCell: map[string]bool{}, Cell0: map[string]int{},
+		}
+
+		km, err := NewKeyMap(seed+int64(ri), false, nil)
+		mustNoErr(err, "keymap")
+
+		for i, k := range cfg.Keys {
+			real := []byte(fmt.Sprintf("key-%02d-%04x", i, (seed*7919+int64(ri)*31+int64(i)*104729)&0xffff))
+			km.ByModel[k] = real
+			km.ByReal[string(real)] = k
+		}
+
+		s := newSched(km, cfg.unit(), cfg.Keys)
+		s.steer = false
+		s.yield = func() { runtime.Gosched() }
+
+		var cmdMu sync.Mutex
+
+		cmdRng := rand.New(rand.NewSource(seed + int64(ri)*977)) //nolint:gosec
+		s.freeCmd = func(kind string) gcmd {
+			cmdMu.Lock()
+			defer cmdMu.Unlock()
+
+			c := gcmd{ok: true}
+
+			switch kind {
+			case "bend":
+				c.ok = cmdRng.Intn(5) != 0
+				if cmdRng.Intn(4) == 0 {
+					time.Sleep(time.Duration(cmdRng.Intn(200)) * time.Microsecond)
+				}
+			case "beRead", "beWrite":
+				c.fault = cmdRng.Intn(25) == 0
+			}
+
+			return c
+		}
+
+		stat := NewStatRec()
+		t0 := time.Now()
+		fo := newFo(cfg, s, stat, func() time.Time { return t0 })
+		r := &foRun{cfg: cfg, s: s, stat: stat, km: km, u: cfg.unit(), fo: fo, t0: t0}
+
+		// prepared content: stale / too stale / fresh / absent per key
+		init := foSnapJ{}
+		for _, k := range cfg.Keys {
+			switch rng.Intn(4) {
+			case 0:
+				init.Be = append(init.Be, foEntJ{K: k, V: k + "#0", E: 0})
+			case 1:
+				init.Be = append(init.Be, foEntJ{K: k, V: k + "#0", E: -4})
+			case 2:
+				init.Be = append(init.Be, foEntJ{K: k, V: k + "#0", E: 2})
+			}
+		}
+
+		r.prepare(init)
+
+		G := 4 + rng.Intn(9)
+
+		var wg sync.WaitGroup
+
+		seeds := make([]int64, G)
+		for g := range seeds {
+			seeds[g] = rng.Int63()
+		}
+
+		for g := 0; g < G; g++ {
+			wg.Add(1)
+
+			go func(g int) {
+				defer wg.Done()
+
+				gr := rand.New(rand.NewSource(seeds[g])) //nolint:gosec
+
+				for i := 0; i < 3+gr.Intn(6); i++ {
+					p := fmt.Sprintf("g%d.%d", g, i)
+					mk := cfg.Keys[gr.Intn(2)]
+					buf := append([]byte(nil), km.ByModel[mk]...)
+
+					ctx := context.WithValue(context.WithValue(context.Background(), procKey{}, p), ctxProbe{}, p)
+					ctx, cancel := context.WithCancel(ctx)
+
+					ce := Event{Ev: "call", P: p, K: mk}
+					if gr.Intn(8) == 0 {
+						ctx = cache.WithSkipRead(ctx)
+						ce.C = "skip"
+					}
+
+					s.rec(ce)
+
+					var returned atomic.Bool
+
+					v, err := fo.Get(ctx, buf, func(bctx context.Context) (string, error) {
+						return s.build(bctx, p, mk, returned.Load)
+					})
+					returned.Store(true)
+					s.rec(Event{Ev: "ret", P: p, K: mk, V: v, Err: errTok(err)})
+
+					// caller reuses its buffer and cancels at once
+					other := km.ByModel[cfg.Keys[0]]
+					if mk == cfg.Keys[0] {
+						other = km.ByModel[cfg.Keys[1]]
+					}
+
+					copy(buf, other)
+					cancel()
+
+					if gr.Intn(10) == 0 {
+						fo.Backend().ExpireAll(context.Background())
+						s.rec(Event{Ev: "extexpire"})
+					}
+				}
+			}(g)
+		}
+
+		wg.Wait()
+
+		// background builds
+		for i := 0; i < 2000 && fo.KeyLocks() != 0; i++ {
+			time.Sleep(time.Millisecond)
+		}
+
+		s.rec(Event{Ev: "metric", C: "build", N: stat.Total(cache.MetricBuild, foName)})
+		s.rec(Event{Ev: "metric", C: "failed", N: stat.Total(cache.MetricFailed, foName)})
+		s.rec(Event{Ev: "quiesce", N: fo.KeyLocks()})
+
+		// follow-up without waiting for TTLs: both caches emptied
+		fo.Backend().DeleteAll(context.Background())
+		fo.ErrsDeleteAll()
+		s.rec(Event{Ev: "reset"})
+		s.freeCmd = nil
+
+		for _, k := range cfg.Keys {
+			p := "fu-" + k
+			before := *s.nb[k]
+			ctx := context.WithValue(context.WithValue(context.Background(), procKey{}, p), ctxProbe{}, p)
+
+			s.rec(Event{Ev: "call", P: p, K: k})
+
+			type gr struct {
+				v   string
+				err error
+			}
+
+			ch := make(chan gr, 1)
+
+			go func() {
+				v, err := fo.Get(ctx, append([]byte(nil), km.ByModel[k]...), func(bctx context.Context) (string, error) {
+					return s.build(bctx, p, k, func() bool { return false })
+				})
+				ch <- gr{v, err}
+			}()
+
+			ev := Event{Ev: "followup", P: p, K: k}
+
+			select {
+			case x := <-ch:
+				ev.C, ev.V, ev.Err, ev.N = "returned", x.v, errTok(x.err), int(*s.nb[k]-before)
+				rr := fo.Backend().Read(context.Background(), km.ByModel[k])
+				ev.Note = rr.Class + ":" + rr.V
+			case <-time.After(3 * time.Second):
+				ev.C = "blocked"
+			}
+
+			s.rec(ev)
+		}
+
+		_ = enc.Encode(foOut{Cfg: cfg, B: ri, Events: s.events})
+		res.Evaluations++
+		res.Steps += len(s.events)
 	}
 }
